@@ -97,7 +97,8 @@ OnDeliver(pc, pm, ev) ==
           <<pm.pend = "-",                         "C14:breaker-transition-not-reported">>,
           <<pm.admitted => pm.nrec >= 1,           "C08:admitted-call-not-settled">>,
           <<pm.admitted => pm.nrec >= 1,           "C09:admitted-call-without-record">>,
-          <<~(pm.r.phase = "half" /\ pm.r.out),    "C08:probe-slot-leaked">>,
+          \* (a rejected call leaves the slot with whoever holds it, e.g. a direct user of the breaker)
+          <<pm.admitted => ~(pm.r.phase = "half" /\ pm.r.out), "C08:probe-slot-leaked">>,
           <<pm.refused <=> rejected,               "C07:rejection-not-delivered-as-rejection">>,
           <<pm.refused => pm.ninv = 0,             "C07:operation-invoked-by-rejected-call">>,
           <<(pm.admitted /\ pm.nrec = 1) => (<<pm.recop, pm.reck>> \in Expected(pc, pm, v)),
@@ -126,6 +127,8 @@ PMonStep(pc, pm, ev) ==
       [] ev.e = "probe-after" ->
             \* with no call outstanding and recovery_timeout_s elapsed the next call is admitted
             V(pm, ev.allowed, "C08:next-call-rejected-after-recovery-timeout")
+      [] ev.e = "ext" ->      \* a direct breaker operation: judged by the reference, no event owed
+            [BreakerOp(pc, pm, ev.op, ev.k, ev.at, ev.allowed, ev.ev, ev.state) EXCEPT !.pend = "-"]
       [] ev.e \in {"fault", "astart", "aend"} -> pm
       [] ev.e = "classify" /\ pc.retry /\ pm.m.terminal # "-" -> pm   \* classify_for_breaker
       [] OTHER             -> WithLoop(pc, pm, ev)
